@@ -365,6 +365,7 @@ func runBlk(ctx *Ctx) {
 		blkRunCase(ctx, bs, size, false, pre, ops)
 	}
 	runBlkSparse(ctx)
+	runBlkMM(ctx)
 	if ctx.Thorough {
 		// one page-size geometry (32769 blocks of 4096 bytes = 128 MiB per segment is too big; use bs=2048: 16385*2048 = 32 MiB)
 		var ops []string
